@@ -27,8 +27,10 @@ import (
 	"fmt"
 	"sort"
 	"strings"
+	"sync"
 	"testing"
 	"testing/synctest"
+	"time"
 )
 
 type c15Cmd struct {
@@ -61,7 +63,8 @@ type c15Op struct {
 	K           int      `json:"waiting_gets,omitempty"` // Wake: number of Gets that wait
 	Racing      bool     `json:"racing,omitempty"`       // Wake: the Gets' context is cancelled together with X
 	CancelFirst bool     `json:"cancel_first,omitempty"` // Wake, racing: cancel() is called before X (else right after)
-	X           *c15Op   `json:"x,omitempty"`            // Wake: the operation that runs while the Gets wait
+	Held        bool     `json:"held,omitempty"`         // Wake: the Gets are held at their first ctx.Done() call until the burst is over (else: parked in the select)
+	Xs          []c15Op  `json:"xs,omitempty"`           // Wake: the burst of operations that runs while the Gets wait
 }
 
 const (
@@ -79,6 +82,26 @@ type c15Res struct {
 	Contains   bool       `json:"contains,omitempty"`   // containsDuplicate
 	Degenerate bool       `json:"degenerate,omitempty"` // Wake whose first Get did not block: ran as a plain Get
 	raw        []*Batch   // the returned batch objects (aliasing probes)
+}
+
+// c15HeldCtx is a context whose Done() blocks until the gate is opened: a Get called with it is held
+// at the point where it is about to wait (after whatever it does before waiting, before it is
+// parked on the ready channel).  No hook in the code under test is needed.
+type c15HeldCtx struct {
+	gate chan struct{} // closed on release
+	done chan struct{} // closed on cancellation
+}
+
+func (x *c15HeldCtx) Deadline() (time.Time, bool) { return time.Time{}, false }
+func (x *c15HeldCtx) Value(any) any               { return nil }
+func (x *c15HeldCtx) Done() <-chan struct{}       { <-x.gate; return x.done }
+func (x *c15HeldCtx) Err() error {
+	select {
+	case <-x.done:
+		return context.Canceled
+	default:
+		return nil
+	}
 }
 
 // c15Junk is appended to every batch a Get returns: if the batch shared its backing array with the
@@ -246,7 +269,17 @@ func c15Exec(cc *CommandCache, op c15Op) (res c15Res) {
 			pan  string
 			done bool
 		}
-		ctx, cancel := context.WithCancel(context.Background())
+		var ctx context.Context
+		var cancel, release func()
+		if op.Held {
+			hc := &c15HeldCtx{gate: make(chan struct{}), done: make(chan struct{})}
+			var once1, once2 sync.Once
+			ctx, cancel, release = hc, func() { once1.Do(func() { close(hc.done) }) }, func() { once2.Do(func() { close(hc.gate) }) }
+			defer release()
+		} else {
+			ctx, cancel = context.WithCancel(context.Background())
+			release = func() {}
+		}
 		defer cancel()
 		outs := make([]*out, 0, op.K)
 		for i := 0; i < op.K; i++ {
@@ -261,8 +294,16 @@ func c15Exec(cc *CommandCache, op c15Op) (res c15Res) {
 				}()
 				x.b, x.err = cc.Get(ctx)
 			}()
-			synctest.Wait()
-			if x.done {
+			synctest.Wait() // parked in the select, or held inside ctx.Done()
+			if x.done && op.Held {
+				// only issued where fewer than batch_size fresh commands are cached: nothing to return yet
+				res.Err = fmt.Sprintf("concurrent Get %d returned before anything was added: batch=%v err=%v", i, x.b != nil, x.err)
+				release()
+				cancel()
+				synctest.Wait()
+				return res
+			}
+			if x.done && !op.Held {
 				if x.pan != "" {
 					res.Panic = x.pan
 					return res
@@ -280,10 +321,13 @@ func c15Exec(cc *CommandCache, op c15Op) (res c15Res) {
 		if op.Racing && op.CancelFirst {
 			cancel()
 		}
-		if sub := c15Exec(cc, *op.X); sub.Panic != "" {
-			res.Panic = sub.Panic
-			return res
+		for _, x := range op.Xs { // the burst: no waiting in between
+			if sub := c15Exec(cc, x); sub.Panic != "" {
+				res.Panic = sub.Panic
+				return res
+			}
 		}
+		release()
 		if op.Racing && !op.CancelFirst {
 			cancel()
 		}
@@ -468,20 +512,22 @@ func (s *c15Spec) apply(op c15Op, res c15Res, after c15State) []c15Fail {
 		if res.Err != "" {
 			bad("get:bad-return", "waiting Get: %s", res.Err)
 		}
-		if fp := s.freshOf(s.pend); s.bs > 0 && uint32(len(fp)) >= s.bs {
+		if fp := s.freshOf(s.pend); !op.Held && s.bs > 0 && uint32(len(fp)) >= s.bs {
 			bad("get:blocked-with-full-fresh-batch", "%d Gets blocked although %d fresh commands wait (batch size %d)", op.K, len(fp), s.bs)
 		}
-		// the operation that runs while they wait
-		switch op.X.Kind {
-		case c15Add:
-			if !op.X.NilCmd && s.fresh(op.X.Cmds[0]) {
-				s.pend = append(s.pend, op.X.Cmds[0])
-			}
-		case c15Proposed:
-			if !op.X.NilBatch {
-				for _, c := range op.X.Cmds {
-					if c.S > s.marked[c.C] {
-						s.marked[c.C] = c.S
+		// the burst that runs while they wait
+		for _, x := range op.Xs {
+			switch x.Kind {
+			case c15Add:
+				if !x.NilCmd && s.fresh(x.Cmds[0]) {
+					s.pend = append(s.pend, x.Cmds[0])
+				}
+			case c15Proposed:
+				if !x.NilBatch {
+					for _, c := range x.Cmds {
+						if c.S > s.marked[c.C] {
+							s.marked[c.C] = c.S
+						}
 					}
 				}
 			}
@@ -504,9 +550,9 @@ func (s *c15Spec) apply(op c15Op, res c15Res, after c15State) []c15Fail {
 		case short:
 			bad("get:batch-not-full", "waiting Gets returned %v, batch size %d", obs, s.bs)
 		case len(obs) > len(exp) || !c15SameBatches(obs, exp[:len(obs)]):
-			bad("wake:wrong-batches", "waiting Gets returned %v after %s, the oldest fresh batches are %v (marked=%v)", obs, c15OpString(*op.X), exp, s.marked)
+			bad("wake:wrong-batches", "waiting Gets returned %v after %s, the oldest fresh batches are %v (marked=%v)", obs, c15BurstString(op.Xs), exp, s.marked)
 		case len(obs) < len(exp) && !op.Racing:
-			bad("wake:waiting-get-not-woken", "%d Gets waited, %s made %d fresh batches available, only %d returned", op.K, c15OpString(*op.X), len(exp), len(obs))
+			bad("wake:waiting-get-not-woken", "%d concurrent Gets waited (%s), %s made %d fresh batches available for them, only %d returned: a Get stays blocked with a full fresh batch cached", op.K, map[bool]string{true: "held before parking", false: "parked"}[op.Held], c15BurstString(op.Xs), len(exp), len(obs))
 		}
 		if len(obs) <= len(exp) && c15SameBatches(obs, exp[:len(obs)]) {
 			for _, b := range exp[:len(obs)] {
@@ -573,7 +619,11 @@ func c15GOp(op c15Op, res c15Res) string {
 	case c15Contains:
 		return fmt.Sprintf("(CContains %s %s)", c15GCmds(op.Cmds), gBool(res.Contains))
 	case c15Wake:
-		return fmt.Sprintf("(W_ %d%%nat %s %s %s)", op.K, gBool(op.Racing), c15GOp(*op.X, c15Res{}), c15GBatches(res.Batches))
+		xs := make([]string, len(op.Xs))
+		for i, x := range op.Xs {
+			xs[i] = c15GOp(x, c15Res{})
+		}
+		return fmt.Sprintf("(W_ %d%%nat %s %s [%s] %s)", op.K, gBool(op.Held), gBool(op.Racing), strings.Join(xs, ";"), c15GBatches(res.Batches))
 	case c15Add:
 		if op.NilCmd {
 			return "(CAdd (0,0,0))" // nil command: GetClientID() = GetSequenceNumber() = 0
@@ -609,7 +659,11 @@ func c15OpString(op c15Op) string {
 		} else if op.Racing {
 			how = "cancel right after it"
 		}
-		return fmt.Sprintf("%d waiting Gets + %s (%s)", op.K, c15OpString(*op.X), how)
+		where := "parked"
+		if op.Held {
+			where = "held before parking"
+		}
+		return fmt.Sprintf("%d waiting Gets (%s) + %s (%s)", op.K, where, c15BurstString(op.Xs), how)
 	case c15Add:
 		if op.NilCmd {
 			return "Add(nil)"
@@ -628,6 +682,13 @@ func c15OpString(op c15Op) string {
 		return "Get"
 	}
 	return "Get(cancelled)"
+}
+func c15BurstString(xs []c15Op) string {
+	ss := make([]string, len(xs))
+	for i, x := range xs {
+		ss[i] = c15OpString(x)
+	}
+	return strings.Join(ss, ", ")
 }
 func c15StateKey(s c15State) string { return c15GState(s) }
 func c15Key(s string) (k [16]byte) {
@@ -731,6 +792,12 @@ func (h *c15H) exhaustive(depth, kernelDepth, sampleMod, wakeDepth int) {
 				kind := []string{"add", "proposed", "get", "getc", "contains", "wake"}[op.Kind]
 				if op.Kind == c15Wake {
 					kind = fmt.Sprintf("wake%d", op.K)
+					if op.Held {
+						kind += "_held"
+					}
+					if len(op.Xs) > 1 {
+						kind += "_burst"
+					}
 					if op.Racing {
 						kind += "_racing"
 					}
@@ -740,13 +807,14 @@ func (h *c15H) exhaustive(depth, kernelDepth, sampleMod, wakeDepth int) {
 				}
 				v.Count("step_" + kind)
 				key := c15StateKey(n.st) + c15GOp(op, res)
-				emit := d < kernelDepth
-				if !emit {
-					hsh := uint32(2166136261)
-					for i := 0; i < len(key); i++ {
-						hsh = (hsh ^ uint32(key[i])) * 16777619
-					}
-					emit = int(hsh>>8)%sampleMod == 0
+				hsh := uint32(2166136261)
+				for i := 0; i < len(key); i++ {
+					hsh = (hsh ^ uint32(key[i])) * 16777619
+				}
+				emit := int(hsh>>8)%sampleMod == 0
+				if d < kernelDepth {
+					// shallow states: everything goes to the kernel, of the many two-operation bursts one in eight
+					emit = !(op.Kind == c15Wake && len(op.Xs) == 2 && op.Xs[0].Cmds[0].C != 3) || int(hsh>>8)%8 == 0
 				}
 				if emit && res.Panic == "" {
 					v.Case(stream, fmt.Sprintf("(%s,%s,%s,%s)", c15GState(n.st), c15GOp(op, res), c15GRes(res), c15GState(after)),
@@ -776,19 +844,52 @@ func (h *c15H) exhaustive(depth, kernelDepth, sampleMod, wakeDepth int) {
 					}
 				}
 				if uint32(len(n.spec.freshOf(n.spec.pend))) >= bs {
-					continue // a Get would not wait here
+					continue // a Get would not wait here (and may legitimately return before the burst)
+				}
+				// k >= 2 concurrent Gets and a BURST of Adds that makes >= 2 batches available while
+				// none of them can react: held at their first ctx.Done() call (past whatever they do
+				// before waiting, not yet parked), then released together.  One buffered token has
+				// to serve them all (the hand-off re-signal).  Client 3 is never marked: always fresh.
+				burst := func(m int) []c15Op {
+					xs := make([]c15Op, m)
+					for i := range xs {
+						xs[i] = c15Op{Kind: c15Add, Cmds: []c15Cmd{{C: 3, S: uint64(i + 1)}}}
+					}
+					return xs
+				}
+				try(n, c15Op{Kind: c15Wake, K: 2, Held: true, Xs: burst(2 * int(bs))}, false)
+				if d < wakeDepth {
+					try(n, c15Op{Kind: c15Wake, K: 3, Held: true, Xs: burst(3 * int(bs))}, false)
+					try(n, c15Op{Kind: c15Wake, K: 3, Held: true, Xs: burst(2*int(bs) + 1)}, false)
+					try(n, c15Op{Kind: c15Wake, K: 2, Held: true, Racing: true, Xs: burst(2 * int(bs))}, false)
+					try(n, c15Op{Kind: c15Wake, K: 2, Held: true, Racing: true, CancelFirst: true, Xs: burst(2 * int(bs))}, false)
+				}
+				if d < wakeDepth-1 {
+					for i := range ops {
+						for j := range ops {
+							if ops[i].Kind == c15Add && ops[j].Kind != c15Get {
+								try(n, c15Op{Kind: c15Wake, K: 2, Held: true, Xs: []c15Op{ops[i], ops[j]}}, false)
+							}
+						}
+					}
+				}
+				// the same burst with the Gets already parked in their select (they may react between the Adds)
+				try(n, c15Op{Kind: c15Wake, K: 2, Xs: burst(2 * int(bs))}, false)
+				if d < wakeDepth {
+					try(n, c15Op{Kind: c15Wake, K: 3, Xs: burst(3*int(bs) + 1)}, false)
 				}
 				for i := range ops {
 					x := ops[i]
 					if x.Kind != c15Add {
 						continue
 					}
-					try(n, c15Op{Kind: c15Wake, K: 1, X: &x}, false)
+					xs := []c15Op{x}
+					try(n, c15Op{Kind: c15Wake, K: 1, Xs: xs}, false)
 					if d < wakeDepth {
-						try(n, c15Op{Kind: c15Wake, K: 2, X: &x}, false)
-						try(n, c15Op{Kind: c15Wake, K: 1, Racing: true, X: &x}, false)
-						try(n, c15Op{Kind: c15Wake, K: 1, Racing: true, CancelFirst: true, X: &x}, false)
-						try(n, c15Op{Kind: c15Wake, K: 2, Racing: true, CancelFirst: i%2 == 0, X: &x}, false)
+						try(n, c15Op{Kind: c15Wake, K: 2, Xs: xs}, false)
+						try(n, c15Op{Kind: c15Wake, K: 1, Racing: true, Xs: xs}, false)
+						try(n, c15Op{Kind: c15Wake, K: 1, Racing: true, CancelFirst: true, Xs: xs}, false)
+						try(n, c15Op{Kind: c15Wake, K: 2, Racing: true, CancelFirst: i%2 == 0, Xs: xs}, false)
 					}
 				}
 			}
@@ -814,6 +915,11 @@ func (h *c15H) runSeq(stream *verifStream, bs uint32, ops []c15Op, oracle bool, 
 	}
 	var holds []held
 	for i, op := range ops {
+		if op.Kind == c15Wake && op.Held && bs > 0 && uint32(len(spec.freshOf(spec.pend))) >= bs {
+			// enough fresh commands are there already: a concurrent Get may legitimately return before the
+			// burst, so "held until the burst is over" is not a meaningful schedule here; just a Get
+			op = c15Op{Kind: c15Get}
+		}
 		res := c15Exec(cc, op)
 		if res.Degenerate {
 			op = c15Op{Kind: c15Get}
@@ -997,11 +1103,30 @@ func (h *c15H) sequencesRandom(n int) {
 			case r < 91:
 				batch = append(batch, c15Op{Kind: c15Contains, Cmds: someCmds(3)})
 			default: // Gets that are already waiting when something happens
-				x := newAdd()
-				if v.rng.Intn(6) == 0 {
-					x = newProposed()
+				sn := c15Snap(shadow)
+				nf := 0
+				for _, c := range sn.Cache {
+					if c.S > sn.Seqs[c.C] {
+						nf++
+					}
 				}
-				batch = append(batch, c15Op{Kind: c15Wake, K: 1 + v.rng.Intn(3), Racing: v.rng.Intn(5) < 2, CancelFirst: v.rng.Intn(2) == 0, X: &x})
+				if uint32(nf) >= bs { // a Get would not wait: just Gets
+					batch = append(batch, c15Op{Kind: c15Get}, c15Op{Kind: c15Get})
+					break
+				}
+				w := c15Op{Kind: c15Wake, K: 1 + v.rng.Intn(3), Held: v.rng.Intn(2) == 0, Racing: v.rng.Intn(5) < 2, CancelFirst: v.rng.Intn(2) == 0}
+				if !w.Held && v.rng.Intn(6) == 0 {
+					w.Xs = []c15Op{newProposed()} // parked Gets and a mark: nothing to race with
+				} else {
+					for k := 1 + v.rng.Intn(2*int(bs)+2); k > 0; k-- {
+						if w.Held && v.rng.Intn(6) == 0 {
+							w.Xs = append(w.Xs, newProposed())
+						} else {
+							w.Xs = append(w.Xs, newAdd())
+						}
+					}
+				}
+				batch = append(batch, w)
 			}
 			for _, op := range batch {
 				ops = append(ops, op)
@@ -1026,8 +1151,9 @@ func (h *c15H) edges() {
 	G, GC := c15Op{Kind: c15Get}, c15Op{Kind: c15GetC}
 	C := func(cs ...c15Cmd) c15Op { return c15Op{Kind: c15Contains, Cmds: cs} }
 	W := func(k int, racing, cancelFirst bool, x c15Op) c15Op {
-		return c15Op{Kind: c15Wake, K: k, Racing: racing, CancelFirst: cancelFirst, X: &x}
+		return c15Op{Kind: c15Wake, K: k, Racing: racing, CancelFirst: cancelFirst, Xs: []c15Op{x}}
 	}
+	WB := func(k int, held bool, xs ...c15Op) c15Op { return c15Op{Kind: c15Wake, K: k, Held: held, Xs: xs} }
 	nilAdd := c15Op{Kind: c15Add, NilCmd: true}
 	nilBatch := c15Op{Kind: c15Proposed, NilBatch: true}
 	nilInBatch := c15Op{Kind: c15Proposed, NilCmd: true, Cmds: []c15Cmd{{}, {1, 1, 0}, {}}}
@@ -1072,6 +1198,14 @@ func (h *c15H) edges() {
 		{2, []c15Op{A(1, 1, 1), W(1, true, false, A(1, 2, 2)), G, A(2, 1, 3), W(2, true, true, A(2, 2, 4)), G, G}, true},
 		{1, []c15Op{W(1, true, true, A(1, 1, 1)), G, W(1, true, false, A(1, 2, 2)), G, W(3, true, false, A(1, 3, 3)), G}, true},
 		{3, []c15Op{A(1, 1, 1), A(2, 1, 2), W(2, true, false, A(1+1<<16, 1, 3)), G, G}, true},
+		// several concurrent Gets, a burst that makes several batches available at once, one buffered token:
+		// held between "looked at the cache" and "parked" / already parked; more Gets than batches and vice versa
+		{1, []c15Op{WB(2, true, A(1, 1, 1), A(1, 2, 2)), G}, true},
+		{1, []c15Op{WB(3, true, A(1, 1, 1), A(1, 2, 2), A(2, 1, 3), A(2, 2, 4)), G, G}, true},
+		{2, []c15Op{A(1, 1, 1), WB(2, true, A(1, 2, 2), A(1, 3, 3), A(1, 4, 4)), G, A(1, 5, 5), G}, true},
+		{2, []c15Op{A(1, 1, 1), A(1, 2, 2), P(c15Cmd{1, 1, 0}), G, WB(3, true, A(2, 1, 3), P(c15Cmd{2, 1, 0}), A(2, 2, 4), A(2, 3, 5), A(1, 3, 6)), G}, true},
+		{1, []c15Op{WB(2, false, A(1, 1, 1), A(1, 2, 2)), G, WB(3, false, A(1, 3, 3), A(1, 4, 4), A(1, 5, 5), A(1, 6, 6)), G, G}, true},
+		{3, []c15Op{A(1, 1, 1), WB(2, false, A(1, 2, 2), A(1, 3, 3), A(1, 4, 4), A(1, 5, 5), A(1, 6, 6), A(1, 7, 7)), G}, true},
 		// ids that agree in their low bits are different clients; sequence numbers that agree in their low 32 bits differ
 		{2, []c15Op{A(1, 1, 1), P(c15Cmd{1, 1, 0}), A(1+1<<16, 1, 2), A(1+1<<8, 1, 3), G, A(1+1<<24, 1, 4), A(1+1<<31, 1, 5), G, C(c15Cmd{1 + 1<<16, 1, 0}), C(c15Cmd{1, 1, 0})}, true},
 		{1, []c15Op{A(1, 1<<32+1, 1), P(c15Cmd{1, 1, 0}), G, A(1, 1, 2), G, P(c15Cmd{1, 1<<32 + 1, 0}), A(1, 1<<32, 3), A(1, 1<<63, 4), G, C(c15Cmd{1, 1 << 33, 0})}, true},
